@@ -150,7 +150,13 @@ impl Prop for PPrintf {
                     fmt.push(92);
                     fmt.push(*rng.pick(&[97u32, 98, 102, 110, 114, 116, 118, 92, 48]));
                 }
-                7 => fmt.extend(*rng.pick(&[[92u32, 49, 48, 49], [92, 48, 52, 48], [92, 49, 55, 55]])),
+                7 => {
+                    // an octal escape has exactly three digits: a digit right after it is a literal
+                    fmt.extend(*rng.pick(&[[92u32, 49, 48, 49], [92, 48, 52, 48], [92, 49, 55, 55]]));
+                    if rng.chance(1, 2) {
+                        fmt.push(*rng.pick(&[48u32, 49, 55, 56]));
+                    }
+                }
                 _ => fmt.push(*rng.pick(&[120u32, 32, 124, 233, 58, 0x4e2d, 45, 53])),
             }
         }
